@@ -76,6 +76,35 @@ def submit(cls_name, entry, schema, doc):
         return ("accepted", "raise:" + type(e).__name__)
 
 
+class separate_logical_tag:
+    """Attribution of a discrepancy to the recorded finding 'bulk rule sets and *of definitions share one cache tag':
+    the CURRENT source of SchemaValidatorMixin._validate_logical is re-compiled with the single change of its cache tag
+    ({'turing': ...} -> {'logical': ...}, the 1-line repair that the unedited test-suite rules out); a discrepancy that
+    disappears under it is that finding, any other is not.  If the source no longer has the tag expression, nothing is attributed."""
+
+    def __enter__(self):
+        import inspect
+        import textwrap
+        from cerberus import schema as S
+        self.S, self.old, self.ok = S, S.SchemaValidatorMixin.__dict__.get('_validate_logical'), False
+        try:
+            src = textwrap.dedent(inspect.getsource(self.old))
+        except Exception:
+            return self
+        needle = "mapping_hash({'turing': constraints})"
+        if src.count(needle) != 1:
+            return self
+        ns = {}
+        exec(compile(src.replace(needle, "mapping_hash({'logical': constraints})"), S.__file__, 'exec'), S.__dict__, ns)
+        S.SchemaValidatorMixin._validate_logical = ns['_validate_logical']
+        self.ok = True
+        return self
+
+    def __exit__(self, *a):
+        self.S.SchemaValidatorMixin._validate_logical = self.old
+        clear_all()
+
+
 def run_history(history, cold):
     clear_all()
     out = []
@@ -163,6 +192,10 @@ def run(ctx):
                             break
                 tag = step[4]
                 prev_tags = sorted({h[4] for h in keep if h != "clear"})
+                if tag != 'context-twin':
+                    with separate_logical_tag() as patch:
+                        if patch.ok and run_history(keep + [step], False)[-1] == run_history(keep + [step], True)[-1]:
+                            tag = 'context-twin'      # the recorded tag conflation, reached through another schema
                 violations.append({"signature": "warm-vs-cold:%s" % tag,
                                    "what": "submission %d (%s %s, %s): warm %r, with the cache cleared just before %r; earlier submissions: %s" % (
                                        i, step[0], step[1], tag, w, c, prev_tags),
